@@ -3,7 +3,7 @@
    no Extract Constant of ours; N / positive / byte / string stay Coq inductives. *)
 Require Extraction.
 Require Import ExtrOcamlBasic.
-From Jamm Require Import Bytes Fnv Consts CLayout Meta Spec Codec Tree Cursor PL Freelist Conc ApiSig ApiFlow Engine.
+From Jamm Require Import Bytes Fnv Consts CLayout Meta Spec Codec Tree CheckM Cursor PL Freelist Conc ApiSig ApiFlow Engine.
 Extraction Language OCaml.
 Set Extraction KeepSingleton.
 Separate Extraction
@@ -13,7 +13,7 @@ Separate Extraction
   Consts.meta_checks_page_type
   Spec.step Spec.init_sdb Spec.run Spec.dump_of Spec.b_next
   Codec.decode_page Codec.encode_page Codec.body_size
-  Tree.logical Tree.inv_check Tree.open_db Tree.open_meta Tree.build_tree Tree.flatten Tree.bucket_pages
+  Tree.logical Tree.inv_check Tree.open_db Tree.open_meta Tree.build_tree Tree.flatten Tree.bucket_pages CheckM.check_m
   Cursor.scan Cursor.seek_scan Cursor.range_scan Cursor.get Cursor.to_item
   PL.accept PL.init_pl PL.writer_view PL.commit_ok
   Freelist.begin_writer Freelist.tx_allocate Freelist.tx_free Freelist.fl_init Freelist.fl_pages Freelist.fl_size
